@@ -55,6 +55,11 @@ UNPROVED = [
     "types.ErrQueued`, an error, so the entry is rolled back — O5; genesis does not carry the queue). The model states that (a queued "
     "removal is a refusal that changes nothing: removal_queued_is_refused) and the harness, with the queue enabled in half of the "
     "histories, would see any unit change it caused (any_decrease_requires_matured is the theorem; c15.remove on every decrease the test).",
+    "A panic of the payout calculation itself (CalculateWithdrawal{,FromUnits}, run by the handler before the unlock check) is an environment "
+    "value too (`calcpanic:<pool units>`, computed by running the real function on the pre-state); the driver accepts it only when the stored "
+    "facts explain it (the provider record holds 0 units — an add that mints 0 units leaves such a record and a removal by basis points then "
+    "divides by zero — or the pool has 0 units); otherwise the model answers as if the calculation had passed, so a calculation that panics on "
+    "ordinary inputs is a mismatch, not a prediction.",
     "The margin-health outcome (pass/queue/block/panic) is an environment value computed by the harness with the implementation's own "
     "CalculateWithdrawal*, ExtractDebt, CalculatePoolHealth, GetRemovalQueueThreshold, IsPoolEnabled, IsRemovalQueueEnabled.",
     "Epoch re-investment, LPPD and margin hooks are not run by this family (only the clp Begin/EndBlocker, which do not touch LP units); "
